@@ -1416,6 +1416,8 @@ class LegCharge:
         """Convert a permutation of qind (acting on self) into a flat permutation."""
         begend = np.stack([self.slices[:-1], self.slices[1:]], axis=0).T
         res = [np.arange(b, e) for b, e in begend[perm_qind]]
+        if len(res) == 0:  # a leg without blocks
+            return np.zeros(0, dtype=np.intp)
         return np.concatenate(res)
 
     def perm_qind_from_perm_flat(self, perm_flat):
